@@ -381,7 +381,11 @@ def generate(tier, seed):
         if adm:
             fam, p, t, flags = adm[en % len(adm)]
             p2, t2 = G.shuffle(kind, p, t, rng, local=(kind != 'quad' and kind != 'hex') or bool(flags.get('shifted')))
-            seq = [MO.from_pt(kind, p, t), MO.from_pt(kind, p2, t2)]
+            # same connectivity, same array shapes, vertices moved (anisotropic scaling + shift keeps rectangles and
+            # validity): anything an element object remembers about the geometry of the first mesh is stale here
+            pa = np.asarray(p)
+            pm = pa * (np.arange(pa.shape[0]) + 2)[:, None] + 1
+            seq = [MO.from_pt(kind, p, t), MO.from_pt(kind, pm, t), MO.from_pt(kind, p2, t2)]
             flags3 = {}
             if th:
                 fam3, p3, t3, flags3 = adm[(en + 1) % len(adm)]
